@@ -5,6 +5,7 @@ package shmipc
 import (
 	"bytes"
 	"fmt"
+	"syscall"
 	"testing"
 
 	"github.com/cloudwego/shmipc-go/internal/vrt"
@@ -82,6 +83,69 @@ func c18WritersBody() {
 	vrt.Outcome(fmt.Sprintf("polls=%d fb=%d", p.c.stats.sendPollingEventCount, p.c.stats.fallbackWriteCount))
 }
 
+// c18ParkedWriterBody: EAGAIN and the wake-up of a parked writer through the REAL handleEvent. The client's socket
+// buffer is 4 KiB and the peer's loop does not run: a 64 KiB message by socket parks its writer after the first
+// kilobytes. Then, while the client's own loop is not running either, the peer writes something to the client AND drains
+// what is queued: the client's next epoll_wait reports "readable" and "writable" in ONE event. The writer must be
+// woken by it, finish, and the message must arrive byte-exact.
+func c18ParkedWriterBody() {
+	p := newEPair(pairOpts{FreeSmall: 2, WriteTO: 5 * vrt.Second})
+	var cst, sst *Stream
+	vrt.Quiet(true)
+	tc := vrt.GoProc("open-c", 1, func() {
+		cst, _ = p.c.OpenStream()
+		cst.BufferWriter().WriteBytes([]byte{0x55})
+		cst.Flush(false)
+	})
+	ts := vrt.GoProc("open-s", 2, func() {
+		sst, _ = p.s.AcceptStream()
+		sst.BufferReader().ReadBytes(1)
+		sst.BufferReader().ReleasePreviousRead()
+	})
+	vrt.WaitThreads(tc, ts)
+	vrt.WaitIdle(0)
+	vrt.Quiet(false)
+	if cst == nil || sst == nil {
+		vrt.Failf("harness", "could not establish the stream")
+	}
+	if err := syscall.SetsockoptInt(p.c.connFd, syscall.SOL_SOCKET, syscall.SO_SNDBUF, 4096); err != nil {
+		vrt.Failf("harness", "SO_SNDBUF: %v", err)
+	}
+	p.router.paused[2] = true
+	var ferr error
+	flushed := false
+	tw := vrt.GoProc("writer", 1, func() { ferr = c09Flush(cst, 1, 1, 64<<10); flushed = true })
+	vrt.WaitIdle(0) // the writer (or the send loop on its behalf) is parked on a full socket now
+	if flushed {
+		vrt.Failf("harness", "64 KiB went into a 4 KiB socket buffer nobody reads: the writer was never parked (%v)", ferr)
+	}
+	p.router.paused[1] = true // the client's loop is busy elsewhere while both things happen
+	tb := vrt.GoProc("peer-writes", 2, func() { c09Flush(sst, 9, 0, 5) })
+	vrt.WaitThreads(tb)
+	p.router.paused[2] = false
+	vrt.WaitIdle(0) // the peer drains what is queued: the client's socket is writable again, and readable
+	p.router.paused[1] = false
+	vrt.WaitThreads(tw)
+	vrt.WaitIdle(vrt.Second)
+	if ferr != nil {
+		vrt.Failf("flush-error", "the flush that had to wait for the socket returned %v", ferr)
+	}
+	var got []byte
+	tr := vrt.GoProc("server-read", 2, func() {
+		sst.SetReadDeadline(vrt.Now().Add(vrt.Second))
+		b, _ := sst.BufferReader().ReadBytes(64 << 10)
+		got = append(got, b...)
+	})
+	vrt.WaitThreads(tr)
+	if !bytes.Equal(got, patBytes(1, 1, 64<<10)) {
+		vrt.Failf("fallback-bytes", "of the 65536 bytes written through a socket that was full for a while %d arrived (equal prefix only: %v)", len(got), bytes.HasPrefix(patBytes(1, 1, 64<<10), got))
+	}
+	vrt.Outcome(fmt.Sprintf("ok fb=%d", p.c.stats.fallbackWriteCount))
+}
+
 func TestVerif_C18W(t *testing.T) {
-	runBScenarios(t, "C18", []bScenario{{Name: "concurrent-senders-short-writes", Bound: 2, BoundT: 3, Body: c18WritersBody, Live: true}})
+	runBScenarios(t, "C18", []bScenario{
+		{Name: "parked-writer-woken-by-coalesced-event", Bound: 1, BoundT: 2, Body: c18ParkedWriterBody, Live: true},
+		{Name: "concurrent-senders-short-writes", Bound: 2, BoundT: 3, Body: c18WritersBody, Live: true},
+	})
 }
